@@ -3,7 +3,7 @@ from __future__ import annotations
 
 from .. import gen
 from ..common import q, uncps, rec
-from ..progprop import ProgramProperty, results, is_exc, init_step, Getter, have, MISSING
+from ..progprop import case_records, ProgramProperty, results, is_exc, init_step, Getter, have, MISSING
 
 
 class C06(ProgramProperty):
@@ -30,7 +30,7 @@ class C06(ProgramProperty):
         curies = [rng.choice(ps) + delim + gen.identifier(rng, delim) for _ in range(4)] + \
             gen.curie_probes(rng, recs, delim, 1)
         uris = gen.uri_probes(rng, recs, 5)
-        steps = [init_step(0, recs, delim), q(0, "records"), q(0, "delimiter")]
+        steps = []
         for p in prefixes:
             steps.append(q(0, "standardize_prefix", p))
         for c in curies:
@@ -39,9 +39,11 @@ class C06(ProgramProperty):
             steps += [q(0, "standardize_uri", u), q(0, "compress", u)]
         us = gen.all_uris(recs)
         actually_pf = not any(a != b and b.startswith(a) for a in us for b in us)
+        steps, how = gen.build_steps(rng, recs, delim, steps)
+        _build_tag = "build=" + how
         return {"steps": steps, "prefixes": prefixes, "curies": curies, "uris": uris, "delim": delim,
                 "prefix_free": actually_pf,
-                "tags": [f"delim={delim!r}", "prefix-free" if actually_pf else "overlapping"]}
+                "tags": [f"delim={delim!r}", "prefix-free" if actually_pf else "overlapping", _build_tag]}
 
     def phase2(self, case, impl):
         g = Getter(case, impl)
@@ -106,11 +108,10 @@ class C06(ProgramProperty):
             return False
         d = case["delim"]
         bad = []
-        for st in case["steps"]:
-            for r in st.get("records", []):
-                p = uncps(r["p"])
-                if not gen.delim_ok(d, p):
-                    bad.append(p)
+        for r in case_records(case):
+            p = uncps(r["p"])
+            if not gen.delim_ok(d, p):
+                bad.append(p)
         return bool(bad) and all(("standardize_curie" in f) and any(repr(p + d)[1:-1] in f for p in bad) for f in fails)
 
 
